@@ -2,6 +2,8 @@
 //! profirust code (path dependency on /repo).  One sub-command per driver; every driver writes
 //! an ndjson event log that TLC validates against a Trace*.tla specification.
 mod codec;
+mod diag;
+mod prm;
 mod dp;
 mod ring;
 mod rx;
@@ -24,6 +26,8 @@ fn main() {
         "ring" => ring::run(&args),
         "dp" => dp::run(&args),
         "rx" => rx::run(&args),
+        "diag" => diag::run(&args),
+        "prm" => prm::run(&args),
         "single" => single::run(&args),
         _ => {
             eprintln!("usage: pbv <codec|...> --out FILE --seed N --tier quick|thorough");
